@@ -1,6 +1,6 @@
 (* Proofs/C18_loaders.v — load_csv / group_rows / load_scottish / py_slice / to_csv_rows
    (Model/Loaders.v) against the vocabulary of Spec/LoaderSpec.v. *)
-From VK Require Import Base Core Loaders EditSpec LoaderSpec Lib_rk Lib_condense12.
+From VK Require Import Base Core Loaders EditSpec LoaderSpec C11_profile Lib_rk Lib_condense12.
 From Coq Require Import Lia Lqa Permutation Setoid Morphisms.
 
 #[local] Arguments CBlank {cand}.
@@ -335,6 +335,544 @@ Proof.
   apply (fold_left_inv _ _ (fun acc kr => group_rows acc (fst kr) (snd kr)) ginv str_key
            ginv_step keyed [] [] H (Forall_nil _)).
   split; [constructor|]. split; [reflexivity|]. intros k rs [].
+Qed.
+
+(* ---------- load_csv, cut into stages (each stage is literally the model's text) ---------- *)
+
+Definition id_check (rows : list (list cell)) (ic : option nat) : res unit :=
+  match ic with
+  | None => ok tt
+  | Some i =>
+      let! ids := rmap (fun r => nth_cell r i) rows in
+      if existsb (fun c => match c with CBlank => true | _ => false end) ids then err EValue
+      else if has_dup_cells ids then err EData else ok tt
+  end.
+
+Definition group_ballot (wc ic : option nat) (g : list cell * list (list cell)) : res ballot :=
+  let! rk' := rmap (fun c => let! x := cell_cand c in ok [x]) (fst g) in
+  let! w := match wc with
+            | None => ok (Qnat (length (snd g)))
+            | Some w0 =>
+                let! ws := rmap (fun r => let! c := nth_cell r w0 in
+                                          match c with CNum q => ok q | _ => err EType end) (snd g) in
+                ok (qsum ws)
+            end in
+  let! voters := match ic with
+                 | None => ok None
+                 | Some i =>
+                     let! ids := rmap (fun r => let! c := nth_cell r i in
+                                                match c with CId x => ok x | _ => err EOther end) (snd g) in
+                     ok (Some ids)
+                 end in
+  ok (mkBallot rk' w [] None voters).
+
+Definition csv_rest (ncols : nat) (rows : list (list cell)) (rc : list nat) (wc ic : option nat)
+  : res profile :=
+  let! _ := match wc with
+            | Some w => if Nat.ltb w ncols then ok tt else err EIndex
+            | None => ok tt
+            end in
+  let! ranks := match rc with
+                | [] => ok (filter (fun i => negb (match ic with Some j => Nat.eqb i j | None => false end)
+                                             && negb (match wc with Some j => Nat.eqb i j | None => false end))
+                                   (seq 0 ncols))
+                | l => if forallb (fun i => Nat.ltb i ncols) l then ok l else err EIndex
+                end in
+  let! keyed := rmap (fun r => let! k := rmap (nth_cell r) ranks in ok (k, r)) rows in
+  let groups := fold_left (fun acc kr => group_rows acc (fst kr) (snd kr)) keyed [] in
+  let! bs := rmap (group_ballot wc ic) groups in
+  mk_profile bs [].
+
+Lemma load_csv_unfold : forall ncols rows rc wc ic, rows <> [] ->
+  load_csv ncols rows rc wc ic = (let! _ := id_check rows ic in csv_rest ncols rows rc wc ic).
+Proof. intros ncols [|r rows] rc wc ic H; [contradiction H; reflexivity|reflexivity]. Qed.
+
+Lemma load_csv_empty : forall ncols rc wc ic, load_csv ncols [] rc wc ic = inr EEmptyData.
+Proof. reflexivity. Qed.
+
+Lemma mk_profile_nil : forall bs : list ballot, mk_profile bs [] = inl (mkProfile bs (cast_cands bs)).
+Proof. reflexivity. Qed.
+
+Lemma has_dup_cells_ids : forall (A : Type) (f : A -> positive) (l : list A),
+  NoDup (map f l) -> has_dup_cells (map (fun r => CId (f r)) l) = false.
+Proof.
+  intros A f l Hnd. induction l as [|r rs IH]; [reflexivity|].
+  cbn [map] in Hnd |- *. inversion Hnd as [|x l Hnotin Hnd']; subst.
+  unfold Loaders.has_dup_cells. fold (has_dup_cells (map (fun r0 => CId (f r0)) rs)).
+  rewrite (IH Hnd'), orb_false_r.
+  apply not_true_is_false. intros H. apply existsb_exists in H. destruct H as (c & Hc & Hcb).
+  apply in_map_iff in Hc. destruct Hc as (r' & <- & Hr'). cbn in Hcb.
+  apply Pos.eqb_eq in Hcb. apply Hnotin. rewrite Hcb. apply in_map. exact Hr'.
+Qed.
+
+(* ---------- the well-formed case ---------- *)
+
+Section WF.
+Variables (ncols : nat) (rows : list (list cell)) (rc : list nat) (wc ic : option nat).
+Hypothesis WF : wf_table ncols rows rc wc ic.
+Let ranks := sel_ranks ncols rc wc ic.
+
+Lemma ranks_lt : forall i, In i ranks -> (i < ncols)%nat.
+Proof.
+  intros i Hi. unfold ranks, LoaderSpec.sel_ranks in Hi. destruct rc as [|c rc'] eqn:E.
+  - unfold default_ranks in Hi. apply filter_In in Hi. destruct Hi as [Hi _].
+    apply in_seq in Hi. lia.
+  - apply (wf_rc _ _ _ _ _ _ _ WF). exact Hi.
+Qed.
+
+Lemma pattern_rank_cells : forall r, In r rows -> Forall rank_cell (pattern ranks r).
+Proof.
+  intros r Hr. apply Forall_forall. intros c Hc. unfold LoaderSpec.pattern in Hc.
+  apply in_map_iff in Hc. destruct Hc as (i & <- & Hi).
+  apply (wf_rank_cells _ _ _ _ _ _ _ WF); assumption.
+Qed.
+
+Lemma pattern_str_cells : forall r, In r rows -> Forall str_cell (pattern ranks r).
+Proof.
+  intros r Hr. eapply Forall_impl; [|apply pattern_rank_cells; exact Hr].
+  intros c. apply rank_cell_str.
+Qed.
+
+Lemma rows_with_In : forall k r,
+  In r (rows_with ranks k rows) <-> In r rows /\ pattern ranks r = k.
+Proof.
+  intros k r. unfold LoaderSpec.rows_with. rewrite filter_In. split.
+  - intros [Hr E]. split; [exact Hr|]. apply row_eqb_eq_l in E; [exact E|].
+    apply pattern_str_cells. exact Hr.
+  - intros [Hr <-]. split; [exact Hr|apply row_eqb_refl].
+Qed.
+
+Lemma id_check_ok : id_check rows ic = inl tt.
+Proof.
+  unfold id_check. destruct ic as [i|] eqn:Eic; [|reflexivity].
+  destruct (wf_ids _ _ _ _ _ _ _ WF i eq_refl) as (Hi & Hcells & Hnd).
+  rewrite (rmap_total _ _ _ (fun r => CId (id_at i r))).
+  - cbn [rbind]. 
+    assert (Hb : existsb (fun c : cell => match c with CBlank => true | _ => false end)
+                   (map (fun r => CId (id_at i r)) rows) = false).
+    { apply not_true_is_false. intros H. apply existsb_exists in H. destruct H as (c & Hc & Hcb).
+      apply in_map_iff in Hc. destruct Hc as (r & <- & _). discriminate. }
+    rewrite Hb.
+    assert (Hd : has_dup_cells (map (fun r => CId (id_at i r)) rows) = false)
+      by (apply has_dup_cells_ids; exact Hnd).
+    rewrite Hd. reflexivity.
+  - intros r Hr. rewrite nth_cell_ok; [|rewrite (wf_width _ _ _ _ _ _ _ WF r Hr); exact Hi].
+    destruct (Hcells r Hr) as [x Hx]. unfold LoaderSpec.id_at. rewrite Hx. reflexivity.
+Qed.
+
+Lemma keyed_filter : forall (rows0 : list (list cell)) k,
+  map snd (filter (fun kr : list cell * list cell => row_eqb (fst kr) k)
+                  (map (fun r => (pattern ranks r, r)) rows0)) = rows_with ranks k rows0.
+Proof.
+  intros rows0 k. unfold LoaderSpec.rows_with. induction rows0 as [|r rs IH]; [reflexivity|].
+  cbn [map filter fst]. destruct (row_eqb (pattern ranks r) k); cbn [map snd]; rewrite IH; reflexivity.
+Qed.
+
+Lemma group_ballot_ok : forall r, In r rows ->
+  group_ballot wc ic (pattern ranks r, rows_with ranks (pattern ranks r) rows)
+  = inl (csv_ballot ranks wc ic rows (pattern ranks r)).
+Proof.
+  intros r0 Hr0. set (k := pattern ranks r0). set (rs := rows_with ranks k rows).
+  assert (Hsub : forall r, In r rs -> In r rows).
+  { intros r Hr. apply rows_with_In in Hr. apply Hr. }
+  assert (Hrk : rmap (fun c => let! x := cell_cand c in ok [x]) k = inl (pattern_ranking k)).
+  { unfold LoaderSpec.pattern_ranking. apply rmap_total. intros c Hc.
+    pose proof (pattern_str_cells r0 Hr0) as Hs. rewrite Forall_forall in Hs.
+    specialize (Hs c Hc). destruct c; cbn in Hs |- *; try contradiction; reflexivity. }
+  assert (HW : forall w, wc = Some w ->
+     rmap (fun r => let! c := nth_cell r w in match c with CNum q => ok q | _ => err EType end) rs
+     = inl (map (num_at w) rs)).
+  { intros w Ew. destruct (wf_weights _ _ _ _ _ _ _ WF w Ew) as [Hw Hcells].
+    apply rmap_total. intros r Hr. apply Hsub in Hr.
+    rewrite nth_cell_ok; [|rewrite (wf_width _ _ _ _ _ _ _ WF r Hr); exact Hw].
+    destruct (Hcells r Hr) as [q Hq]. unfold LoaderSpec.num_at. rewrite Hq. reflexivity. }
+  assert (HI : forall i, ic = Some i ->
+     rmap (fun r => let! c := nth_cell r i in match c with CId x => ok x | _ => err EOther end) rs
+     = inl (map (id_at i) rs)).
+  { intros i Ei. destruct (wf_ids _ _ _ _ _ _ _ WF i Ei) as (Hi & Hcells & _).
+    apply rmap_total. intros r Hr. apply Hsub in Hr.
+    rewrite nth_cell_ok; [|rewrite (wf_width _ _ _ _ _ _ _ WF r Hr); exact Hi].
+    destruct (Hcells r Hr) as [x Hx]. unfold LoaderSpec.id_at. rewrite Hx. reflexivity. }
+  unfold group_ballot, LoaderSpec.csv_ballot. cbn [fst snd]. fold k. fold rs.
+  rewrite Hrk. cbn [rbind].
+  destruct wc as [w|]; [rewrite (HW w eq_refl)|]; cbn [rbind ok];
+    (destruct ic as [i|]; [rewrite (HI i eq_refl)|]; cbn [rbind ok]; reflexivity).
+Qed.
+
+Theorem csv_rest_wf :
+  exists ks, NoDup ks /\ (forall k, In k ks <-> exists r, In r rows /\ pattern ranks r = k) /\
+    csv_rest ncols rows rc wc ic
+    = inl (mkProfile (map (csv_ballot ranks wc ic rows) ks)
+                     (cast_cands (map (csv_ballot ranks wc ic rows) ks))).
+Proof.
+  assert (Hwchk : match wc with
+                  | Some w => if Nat.ltb w ncols then ok tt else err EIndex
+                  | None => ok tt
+                  end = inl tt).
+  { destruct wc as [w|] eqn:E; [|reflexivity].
+    destruct (wf_weights _ _ _ _ _ _ _ WF w eq_refl) as [Hw _].
+    apply Nat.ltb_lt in Hw. rewrite Hw. reflexivity. }
+  assert (Hranks : match rc with
+                   | [] => ok (filter (fun i => negb (match ic with Some j => Nat.eqb i j | None => false end)
+                                              && negb (match wc with Some j => Nat.eqb i j | None => false end))
+                                      (seq 0 ncols))
+                   | l => if forallb (fun i => Nat.ltb i ncols) l then ok l else err EIndex
+                   end = inl ranks).
+  { unfold ranks, LoaderSpec.sel_ranks. destruct rc as [|c rc'] eqn:E; [reflexivity|].
+    assert (Hf : forallb (fun i => Nat.ltb i ncols) (c :: rc') = true).
+    { apply forallb_forall. intros i Hi. apply Nat.ltb_lt. apply (wf_rc _ _ _ _ _ _ _ WF). exact Hi. }
+    rewrite Hf. reflexivity. }
+  assert (Hkeyed : rmap (fun r => let! k := rmap (nth_cell r) ranks in ok (k, r)) rows
+                   = inl (map (fun r => (pattern ranks r, r)) rows)).
+  { apply rmap_total. intros r Hr. rewrite rmap_pattern; [reflexivity|].
+    intros i Hi. rewrite (wf_width _ _ _ _ _ _ _ WF r Hr). apply ranks_lt. exact Hi. }
+  unfold csv_rest. rewrite Hwchk. cbn [rbind]. rewrite Hranks. cbn [rbind]. rewrite Hkeyed. cbn [rbind].
+  set (keyed := map (fun r => (pattern ranks r, r)) rows).
+  set (G := fold_left (fun acc kr => group_rows acc (fst kr) (snd kr)) keyed []).
+  assert (Hstr : Forall str_key keyed).
+  { apply Forall_forall. intros x Hx. unfold keyed in Hx. apply in_map_iff in Hx.
+    destruct Hx as (r & <- & Hr). unfold str_key. cbn [fst]. apply pattern_str_cells. exact Hr. }
+  destruct (ginv_fold keyed Hstr) as (Hnd & Hkeys & Hrs). fold G in Hnd, Hkeys, Hrs.
+  assert (Hkeys' : forall k, In k (map fst G) <-> exists r, In r rows /\ pattern ranks r = k).
+  { intros k. rewrite Hkeys. unfold keyed. rewrite map_map. cbn [fst]. rewrite in_map_iff.
+    split; intros (r & H1 & H2); exists r; split; assumption. }
+  rewrite (rmap_total _ _ _ (fun g => csv_ballot ranks wc ic rows (fst g))).
+  - cbn [rbind]. rewrite mk_profile_nil. exists (map fst G). split; [exact Hnd|].
+    split; [exact Hkeys'|]. rewrite map_map. reflexivity.
+  - intros [k rs] Hg. cbn [fst].
+    assert (Hk : In k (map fst G)) by (apply in_map_iff; exists (k, rs); split; auto).
+    apply Hkeys' in Hk. destruct Hk as (r & Hr & <-).
+    rewrite (Hrs _ _ Hg). unfold keyed. rewrite keyed_filter. apply group_ballot_ok. exact Hr.
+Qed.
+
+Theorem load_csv_wf :
+  exists ks, NoDup ks /\ (forall k, In k ks <-> exists r, In r rows /\ pattern ranks r = k) /\
+    load_csv ncols rows rc wc ic
+    = inl (mkProfile (map (csv_ballot ranks wc ic rows) ks)
+                     (cast_cands (map (csv_ballot ranks wc ic rows) ks))).
+Proof.
+  destruct csv_rest_wf as (ks & H1 & H2 & H3). exists ks. split; [exact H1|]. split; [exact H2|].
+  rewrite load_csv_unfold; [|apply (wf_nonempty _ _ _ _ _ _ _ WF)].
+  rewrite id_check_ok. cbn [rbind]. exact H3.
+Qed.
+
+Lemma partition_sum : forall (h : list cell -> Q) ks rows0, NoDup ks ->
+  (forall r, In r rows0 -> In r rows /\ In (pattern ranks r) ks) ->
+  qsum (map (fun k => qsum (map h (rows_with ranks k rows0))) ks) == qsum (map h rows0).
+Proof.
+  intros h ks rows0 Hnd. induction rows0 as [|r rs IH]; intros Hin.
+  - unfold LoaderSpec.rows_with. cbn [filter map]. rewrite qsum_map_const. rewrite qsum_nil. ring.
+  - rewrite (qsum_map_ext_eq _ _
+       (fun k => (if row_eqb (pattern ranks r) k then h r else 0)
+                 + qsum (map h (rows_with ranks k rs)))).
+    + rewrite qsum_map_plus. rewrite IH; [|intros r' Hr'; apply Hin; right; exact Hr'].
+      destruct (Hin r (or_introl eq_refl)) as [Hr Hk].
+      rewrite (qsum_one_hot _ (fun k => row_eqb (pattern ranks r) k) (pattern ranks r)).
+      * cbn [map]. rewrite qsum_cons. reflexivity.
+      * exact Hnd.
+      * exact Hk.
+      * intros k _. rewrite row_eqb_eq_l; [|apply pattern_str_cells; exact Hr].
+        split; intros H; symmetry; exact H.
+    + intros k _. unfold LoaderSpec.rows_with. cbn [filter].
+      destruct (row_eqb (pattern ranks r) k); cbn [map]; rewrite ?qsum_cons; ring.
+Qed.
+
+End WF.
+
+(* ---------- consequences of the well-formed case ---------- *)
+
+Lemma pattern_ranking_inj : forall k1 k2, Forall rank_cell k1 -> Forall rank_cell k2 ->
+  pattern_ranking k1 = pattern_ranking k2 -> k1 = k2.
+Proof.
+  intros k1 k2 H1. revert k2. induction H1 as [|c1 k1 Hc1 _ IH]; intros k2 H2 H.
+  - destruct k2; [reflexivity|discriminate].
+  - destruct k2 as [|c2 k2]; [discriminate|]. inversion H2 as [|x l Hc2 H2']; subst.
+    cbn [LoaderSpec.pattern_ranking map] in H. injection H as Hc Hk.
+    fold (pattern_ranking k1) in Hk. fold (pattern_ranking k2) in Hk.
+    rewrite (IH k2 H2' Hk). f_equal.
+    destruct c1, c2; cbn in Hc, Hc1, Hc2; try contradiction; try reflexivity; subst;
+      try reflexivity; try (exfalso; apply Hc1; reflexivity); try (exfalso; apply Hc2; reflexivity).
+Qed.
+
+Lemma Qnat_length_qsum : forall (A : Type) (l : list A), Qnat (length l) == qsum (map (fun _ => 1) l).
+Proof. intros A l. rewrite qsum_map_const. ring. Qed.
+
+Lemma csv_ballot_wt_none : forall rks (wc0 ic0 : option nat) rows0 k, wc0 = None ->
+  wt (csv_ballot rks wc0 ic0 rows0 k) = Qnat (length (rows_with rks k rows0)).
+Proof. intros rks wc0 ic0 rows0 k ->. reflexivity. Qed.
+
+Lemma csv_ballot_wt_some : forall rks (wc0 ic0 : option nat) rows0 k w, wc0 = Some w ->
+  wt (csv_ballot rks wc0 ic0 rows0 k) = qsum (map (num_at w) (rows_with rks k rows0)).
+Proof. intros rks wc0 ic0 rows0 k w ->. reflexivity. Qed.
+
+Section Consequences.
+Variables (ncols : nat) (rows : list (list cell)) (rc : list nat) (wc ic : option nat).
+Hypothesis WF : wf_table ncols rows rc wc ic.
+Variable p : profile.
+Hypothesis Hload : load_csv ncols rows rc wc ic = inl p.
+Let ranks := sel_ranks ncols rc wc ic.
+
+Lemma csv_shape :
+  exists ks, NoDup ks /\ (forall k, In k ks <-> exists r, In r rows /\ pattern ranks r = k) /\
+    ballots p = map (csv_ballot ranks wc ic rows) ks /\ cands p = cast_cands (ballots p).
+Proof.
+  destruct (load_csv_wf ncols rows rc wc ic WF) as (ks & H1 & H2 & H3).
+  rewrite Hload in H3. injection H3 as ->. exists ks. cbn [ballots cands]. auto.
+Qed.
+
+Lemma csv_ballot_of : forall b r, In b (ballots p) -> In r rows ->
+  rk b = pattern_ranking (pattern ranks r) -> b = csv_ballot ranks wc ic rows (pattern ranks r).
+Proof.
+  intros b r Hb Hr Hrk. destruct csv_shape as (ks & Hnd & Hks & Hbs & _).
+  rewrite Hbs in Hb. apply in_map_iff in Hb. destruct Hb as (k & <- & Hk).
+  apply Hks in Hk. destruct Hk as (r' & Hr' & <-). f_equal.
+  apply pattern_ranking_inj; [apply (pattern_rank_cells ncols rows rc wc ic WF); exact Hr'
+                             |apply (pattern_rank_cells ncols rows rc wc ic WF); exact Hr|exact Hrk].
+Qed.
+
+Theorem csv_patterns_once :
+  NoDup (map rk (ballots p)) /\
+  (forall r, In r rows -> exists b, In b (ballots p) /\ rk b = pattern_ranking (pattern ranks r)) /\
+  (forall b, In b (ballots p) -> exists r, In r rows /\ rk b = pattern_ranking (pattern ranks r)).
+Proof.
+  destruct csv_shape as (ks & Hnd & Hks & Hbs & _). rewrite Hbs. split; [|split].
+  - rewrite map_map. cbn [LoaderSpec.csv_ballot rk]. apply NoDup_map_inj_in; [|exact Hnd].
+    intros k1 k2 H1 H2. apply Hks in H1. apply Hks in H2.
+    destruct H1 as (r1 & Hr1 & <-). destruct H2 as (r2 & Hr2 & <-).
+    apply pattern_ranking_inj; apply (pattern_rank_cells ncols rows rc wc ic WF); assumption.
+  - intros r Hr. exists (csv_ballot ranks wc ic rows (pattern ranks r)). split; [|reflexivity].
+    apply in_map. apply Hks. exists r. split; [exact Hr|reflexivity].
+  - intros b Hb. apply in_map_iff in Hb. destruct Hb as (k & <- & Hk). apply Hks in Hk.
+    destruct Hk as (r & Hr & <-). exists r. split; [exact Hr|reflexivity].
+Qed.
+
+Theorem csv_column_order : forall b, In b (ballots p) ->
+  exists r, In r rows /\ rk b = map (fun i => [cell_name (cell_at r i)]) ranks.
+Proof.
+  intros b Hb. destruct csv_patterns_once as (_ & _ & H). destruct (H b Hb) as (r & Hr & Hrk).
+  exists r. split; [exact Hr|]. rewrite Hrk. unfold LoaderSpec.pattern_ranking, LoaderSpec.pattern.
+  rewrite map_map. reflexivity.
+Qed.
+
+Theorem csv_weight_is_count : wc = None -> forall b r, In b (ballots p) -> In r rows ->
+  rk b = pattern_ranking (pattern ranks r) ->
+  wt b = Qnat (length (rows_with ranks (pattern ranks r) rows)).
+Proof.
+  intros Hwc b r Hb Hr Hrk. rewrite (csv_ballot_of b r Hb Hr Hrk).
+  apply csv_ballot_wt_none. exact Hwc.
+Qed.
+
+Theorem csv_weight_is_sum : forall w, wc = Some w -> forall b r, In b (ballots p) -> In r rows ->
+  rk b = pattern_ranking (pattern ranks r) ->
+  wt b = qsum (map (num_at w) (rows_with ranks (pattern ranks r) rows)).
+Proof.
+  intros w Hwc b r Hb Hr Hrk. rewrite (csv_ballot_of b r Hb Hr Hrk).
+  apply csv_ballot_wt_some. exact Hwc.
+Qed.
+
+Theorem csv_total :
+  (wc = None -> total_wt (ballots p) == Qnat (length rows)) /\
+  (forall w, wc = Some w -> total_wt (ballots p) == qsum (map (num_at w) rows)).
+Proof.
+  destruct csv_shape as (ks & Hnd & Hks & Hbs & _). unfold Core.total_wt. rewrite Hbs, map_map.
+  assert (Hin : forall r, In r rows -> In r rows /\ In (pattern ranks r) ks).
+  { intros r Hr. split; [exact Hr|]. apply Hks. exists r. split; [exact Hr|reflexivity]. }
+  split.
+  - intros Hwc. rewrite Qnat_length_qsum.
+    rewrite <- (partition_sum ncols rows rc wc ic WF (fun _ => 1) ks rows Hnd Hin).
+    apply qsum_map_ext_eq. intros k _. rewrite (csv_ballot_wt_none _ _ _ _ _ Hwc).
+    apply Qnat_length_qsum.
+  - intros w Hwc.
+    rewrite <- (partition_sum ncols rows rc wc ic WF (num_at w) ks rows Hnd Hin).
+    apply qsum_map_ext_eq. intros k _. rewrite (csv_ballot_wt_some _ _ _ _ _ _ Hwc).
+    reflexivity.
+Qed.
+
+Theorem csv_voter_sets : forall b r, In b (ballots p) -> In r rows ->
+  rk b = pattern_ranking (pattern ranks r) ->
+  vs b = match ic with
+         | None => None
+         | Some i => Some (map (id_at i) (rows_with ranks (pattern ranks r) rows))
+         end /\ sc b = [] /\ bid b = None.
+Proof.
+  intros b r Hb Hr Hrk. rewrite (csv_ballot_of b r Hb Hr Hrk).
+  unfold LoaderSpec.csv_ballot. cbn [vs sc bid]. auto.
+Qed.
+
+Theorem csv_cands : cands p = cast_cands (ballots p).
+Proof. destruct csv_shape as (ks & _ & _ & _ & H). exact H. Qed.
+
+Theorem csv_cands_count : wc = None -> forall c,
+  In c (cands p) <-> exists r i, In r rows /\ In i ranks /\ cell_name (cell_at r i) = c.
+Proof.
+  intros Hwc c. rewrite csv_cands. rewrite (cast_cands_In cand ceqb ceqb_spec). split.
+  - intros (b & Hb & _ & [(g & Hg & Hc)|(s & Hs)]).
+    + destruct (csv_column_order b Hb) as (r & Hr & Hrk). rewrite Hrk in Hg.
+      apply in_map_iff in Hg. destruct Hg as (i & <- & Hi). destruct Hc as [<-|[]].
+      exists r, i. auto.
+    + exfalso. destruct csv_patterns_once as (_ & _ & H). destruct (H b Hb) as (r & Hr & Hrk).
+      destruct (csv_voter_sets b r Hb Hr Hrk) as (_ & Hsc & _). rewrite Hsc in Hs. destruct Hs.
+  - intros (r & i & Hr & Hi & <-). destruct csv_patterns_once as (_ & H & _).
+    destruct (H r Hr) as (b & Hb & Hrk). exists b. split; [exact Hb|]. split.
+    + rewrite (csv_weight_is_count Hwc b r Hb Hr Hrk).
+      assert (Hin : In r (rows_with ranks (pattern ranks r) rows)).
+      { apply (rows_with_In ncols rows rc wc ic WF). split; [exact Hr|reflexivity]. }
+      destruct (rows_with ranks (pattern ranks r) rows) as [|x l]; [destruct Hin|].
+      unfold Qnat, Qlt. cbn [length]. cbn [Qnum Qden inject_Z]. lia.
+    + left. exists [cell_name (cell_at r i)]. split; [|left; reflexivity].
+      rewrite Hrk. unfold LoaderSpec.pattern_ranking, LoaderSpec.pattern. rewrite map_map.
+      apply in_map_iff. exists i. split; [reflexivity|exact Hi].
+Qed.
+
+End Consequences.
+
+(* ---------- errors of load_csv ---------- *)
+
+Lemma has_dup_cells_cons : forall x l,
+  has_dup_cells (x :: l) = existsb (cell_eqb x) l || has_dup_cells l.
+Proof. reflexivity. Qed.
+
+Lemma has_dup_cells_true_iff : forall l,
+  has_dup_cells l = true <->
+  exists pre a mid b post, l = pre ++ a :: mid ++ b :: post /\ cell_eqb a b = true.
+Proof.
+  induction l as [|x l IH].
+  - split; [discriminate|]. intros (pre & a & mid & b & post & H & _). destruct pre; discriminate.
+  - rewrite has_dup_cells_cons, orb_true_iff, IH. split.
+    + intros [H|(pre & a & mid & b & post & -> & Hab)].
+      * apply existsb_exists in H. destruct H as (b & Hb & Hxb).
+        apply in_split in Hb. destruct Hb as (mid & post & ->).
+        exists [], x, mid, b, post. split; [reflexivity|exact Hxb].
+      * exists (x :: pre), a, mid, b, post. split; [reflexivity|exact Hab].
+    + intros (pre & a & mid & b & post & H & Hab). destruct pre as [|y pre]; cbn [app] in H.
+      * injection H as -> ->. left. apply existsb_exists. exists b. split; [|exact Hab].
+        apply in_or_app. right. left. reflexivity.
+      * injection H as -> ->. right. exists pre, a, mid, b, post. split; [reflexivity|exact Hab].
+Qed.
+
+Definition late_err (e : exn) : Prop := e = EIndex \/ e = EOther \/ e = EType.
+
+Lemma group_ballot_err : forall wc ic g e, group_ballot wc ic g = inr e -> late_err e.
+Proof.
+  intros wc ic [k rs] e. unfold group_ballot, late_err. cbn [fst snd].
+  destruct (rmap _ k) as [rk'|e1] eqn:E1; cbn [rbind].
+  2:{ intros H. injection H as <-. apply rmap_err_in in E1. destruct E1 as (c & _ & Hc).
+      destruct c; cbn in Hc; try discriminate; injection Hc as <-; auto. }
+  assert (Hnth : forall r i e', nth_cell r i = inr e' -> e' = EIndex).
+  { intros r i e' H. apply nth_cell_err in H. apply H. }
+  destruct wc as [w|].
+  - destruct (rmap _ rs) as [ws|e2] eqn:E2; cbn [rbind].
+    2:{ intros H. injection H as <-. apply rmap_err_in in E2. destruct E2 as (r & _ & Hr).
+        destruct (nth_cell r w) as [c|e'] eqn:En; cbn [rbind] in Hr.
+        - destruct c; try discriminate; injection Hr as <-; auto.
+        - injection Hr as <-. left. exact (Hnth _ _ _ En). }
+    destruct ic as [i|]; cbn [rbind ok]; [|discriminate].
+    destruct (rmap _ rs) as [ids|e3] eqn:E3; cbn [rbind]; [discriminate|].
+    intros H. injection H as <-. apply rmap_err_in in E3. destruct E3 as (r & _ & Hr).
+    destruct (nth_cell r i) as [c|e'] eqn:En; cbn [rbind] in Hr.
+    + destruct c; try discriminate; injection Hr as <-; auto.
+    + injection Hr as <-. left. exact (Hnth _ _ _ En).
+  - cbn [rbind ok]. destruct ic as [i|]; cbn [rbind ok]; [|discriminate].
+    destruct (rmap _ rs) as [ids|e3] eqn:E3; cbn [rbind]; [discriminate|].
+    intros H. injection H as <-. apply rmap_err_in in E3. destruct E3 as (r & _ & Hr).
+    destruct (nth_cell r i) as [c|e'] eqn:En; cbn [rbind] in Hr.
+    + destruct c; try discriminate; injection Hr as <-; auto.
+    + injection Hr as <-. left. exact (Hnth _ _ _ En).
+Qed.
+
+Lemma csv_rest_err : forall ncols rows rc wc ic e,
+  csv_rest ncols rows rc wc ic = inr e -> late_err e.
+Proof.
+  intros ncols rows rc wc ic e. unfold csv_rest.
+  destruct (match wc with Some w => if Nat.ltb w ncols then ok tt else err EIndex | None => ok tt end)
+    as [[]|e0] eqn:E0; cbn [rbind].
+  2:{ intros H. injection H as <-. destruct wc as [w|]; [|discriminate].
+      destruct (Nat.ltb w ncols); [discriminate|]. injection E0 as <-. left. reflexivity. }
+  match goal with |- rbind ?x _ = _ -> _ => destruct x as [ranks|e1] eqn:E1 end; cbn [rbind].
+  2:{ intros H. injection H as <-. destruct rc as [|c rc']; [discriminate|].
+      destruct (forallb _ (c :: rc')); [discriminate|]. injection E1 as <-. left. reflexivity. }
+  destruct (rmap _ rows) as [keyed|e2] eqn:E2; cbn [rbind].
+  2:{ intros H. injection H as <-. apply rmap_err_in in E2. destruct E2 as (r & _ & Hr).
+      destruct (rmap (nth_cell r) ranks) as [k|e'] eqn:Ek; cbn [rbind] in Hr; [discriminate|].
+      injection Hr as <-. apply rmap_err_in in Ek. destruct Ek as (i & _ & Hi).
+      apply nth_cell_err in Hi. left. apply Hi. }
+  destruct (rmap (group_ballot wc ic) _) as [bs|e3] eqn:E3; cbn [rbind].
+  - rewrite mk_profile_nil. discriminate.
+  - intros H. injection H as <-. apply rmap_err_in in E3. destruct E3 as (g & _ & Hg).
+    eapply group_ballot_err. exact Hg.
+Qed.
+
+Theorem csv_errors : forall ncols rows rc wc ic,
+  (load_csv ncols rows rc wc ic = inr EEmptyData <-> rows = []) /\
+  (ic = None -> load_csv ncols rows rc wc ic <> inr EValue /\
+                load_csv ncols rows rc wc ic <> inr EData) /\
+  (forall i, ic = Some i -> rows <> [] -> (forall r, In r rows -> (i < length r)%nat) ->
+     (load_csv ncols rows rc wc ic = inr EValue <-> exists r, In r rows /\ cell_at r i = CBlank) /\
+     (load_csv ncols rows rc wc ic = inr EData <->
+        (forall r, In r rows -> cell_at r i <> CBlank) /\
+        exists pre r1 mid r2 post, rows = pre ++ r1 :: mid ++ r2 :: post /\
+                                   cell_eqb (cell_at r1 i) (cell_at r2 i) = true)).
+Proof.
+  intros ncols rows rc wc ic.
+  assert (Hlate : forall e, csv_rest ncols rows rc wc ic = inr e ->
+                            e <> EEmptyData /\ e <> EValue /\ e <> EData).
+  { intros e H. apply csv_rest_err in H. destruct H as [->|[->|->]]; repeat split; discriminate. }
+  split; [|split].
+  - split; [|intros ->; reflexivity]. intros H. destruct rows as [|r rows']; [reflexivity|exfalso].
+    rewrite load_csv_unfold in H by discriminate.
+    destruct (id_check (r :: rows') ic) as [[]|e] eqn:E; cbn [rbind] in H.
+    + apply Hlate in H. destruct H as (H & _). apply H. reflexivity.
+    + injection H as ->. unfold id_check in E. destruct ic as [i|]; [|discriminate].
+      destruct (rmap _ (r :: rows')) as [ids|e'] eqn:Er; cbn [rbind] in E.
+      * destruct (existsb _ ids); [discriminate|]. destruct (has_dup_cells ids); discriminate.
+      * injection E as ->. apply rmap_err_in in Er. destruct Er as (r' & _ & Hr').
+        apply nth_cell_err in Hr'. destruct Hr' as [Hr' _]. discriminate.
+  - intros ->. destruct rows as [|r rows']; [split; discriminate|].
+    rewrite load_csv_unfold by discriminate. cbn [id_check rbind ok].
+    split; intros H; apply Hlate in H; destruct H as (_ & H1 & H2); [apply H1|apply H2]; reflexivity.
+  - intros i -> Hne Hlen. rewrite load_csv_unfold by exact Hne. unfold id_check.
+    rewrite (rmap_total _ _ _ (fun r => cell_at r i)) by (intros r Hr; apply nth_cell_ok, Hlen, Hr).
+    cbn [rbind].
+    assert (Hblank : existsb (fun c : cell => match c with CBlank => true | _ => false end)
+                       (map (fun r => cell_at r i) rows) = true <->
+                     exists r, In r rows /\ cell_at r i = CBlank).
+    { rewrite existsb_exists. split.
+      - intros (c & Hc & Hcb). apply in_map_iff in Hc. destruct Hc as (r & <- & Hr).
+        exists r. split; [exact Hr|]. destruct (cell_at r i); try discriminate. reflexivity.
+      - intros (r & Hr & Hc). exists (cell_at r i). split; [apply in_map; exact Hr|].
+        rewrite Hc. reflexivity. }
+    assert (Hdup : has_dup_cells (map (fun r => cell_at r i) rows) = true <->
+                   exists pre r1 mid r2 post, rows = pre ++ r1 :: mid ++ r2 :: post /\
+                                              cell_eqb (cell_at r1 i) (cell_at r2 i) = true).
+    { rewrite has_dup_cells_true_iff. split.
+      - intros (pre & a & mid & b & post & Hmap & Hab).
+        apply map_eq_app in Hmap. destruct Hmap as (rpre & rrest & -> & <- & Hrest).
+        apply map_eq_cons in Hrest. destruct Hrest as (r1 & rrest' & -> & <- & Hrest).
+        apply map_eq_app in Hrest. destruct Hrest as (rmid & rrest'' & -> & <- & Hrest).
+        apply map_eq_cons in Hrest. destruct Hrest as (r2 & rpost & -> & <- & <-).
+        exists rpre, r1, rmid, r2, rpost. split; [reflexivity|exact Hab].
+      - intros (pre & r1 & mid & r2 & post & -> & Hab).
+        exists (map (fun r => cell_at r i) pre), (cell_at r1 i), (map (fun r => cell_at r i) mid),
+               (cell_at r2 i), (map (fun r => cell_at r i) post).
+        split; [|exact Hab]. rewrite map_app. cbn [map]. rewrite map_app. reflexivity. }
+    destruct (existsb _ (map (fun r => cell_at r i) rows)) eqn:Eb.
+    + split.
+      * split; [intros _; apply Hblank; reflexivity|reflexivity].
+      * split; [discriminate|]. intros [Hnb _]. exfalso.
+        destruct (proj1 Hblank eq_refl) as (r & Hr & Hc). exact (Hnb r Hr Hc).
+    + assert (Hnb : forall r, In r rows -> cell_at r i <> CBlank).
+      { intros r Hr Hc. assert (H : false = true) by (apply Hblank; exists r; auto). discriminate. }
+      destruct (has_dup_cells (map (fun r => cell_at r i) rows)) eqn:Ed.
+      * split.
+        -- split; [discriminate|]. intros H. apply Hblank in H. discriminate.
+        -- split; [intros _; split; [exact Hnb|apply Hdup; reflexivity]|reflexivity].
+      * cbn [rbind ok]. split.
+        -- split.
+           ++ intros H. apply Hlate in H. destruct H as (_ & H & _). contradiction H. reflexivity.
+           ++ intros H. apply Hblank in H. discriminate.
+        -- split.
+           ++ intros H. apply Hlate in H. destruct H as (_ & _ & H). contradiction H. reflexivity.
+           ++ intros [_ H]. apply Hdup in H. discriminate.
 Qed.
 
 End WithCand.
